@@ -192,6 +192,7 @@ func (e *Engine) GenVC(fn *ssa.Function, opts VerifyOpts) (res *FuncVC) {
 		}()
 	}
 	st.reach = vc.define("r", "Bool", and(entryFacts...))
+	fr.entryReach = st.reach
 	fr.entry.reach = st.reach
 	results, out := fr.run(st)
 	fname := res.Name
@@ -250,7 +251,11 @@ func (f *FuncVC) ScriptOne(o *Oblig, timeoutMs int) string {
 // Script renders the SMT-LIB script for the given obligations (all if nil).
 func (f *FuncVC) Script(obs []*Oblig, timeoutMs int, models bool) string {
 	var body strings.Builder
-	for _, l := range f.Lines {
+	lines := f.Lines
+	if f.noPush && len(obs) == 1 && !obs[0].IsCover {
+		lines = sliceLines(lines, obs[0].Reach+" "+obs[0].Goal)
+	}
+	for _, l := range lines {
 		body.WriteString(l)
 		body.WriteByte('\n')
 	}
